@@ -118,4 +118,55 @@ def simplify [BEq σ] (segs : List (Segment σ)) (mergeCtl : Bool := false) : Li
   | [] => []
   | s :: rest => simplifyLoop mergeCtl s rest
 
+/-! ### style-level helpers of segment.py (apply_style, filter_control, strip_*, remove_color, get_shape)
+
+Styles stay opaque: `add` is `Style.__add__` (with `None` on the right returning the left operand, as
+`Style.__add__` does), `truthy` is `Style.__bool__`, `noLink` is `style.update_link(None)`, `noColor` is
+`style.without_color`. -/
+
+/-- `Segment.apply_style` (segment.py:72-108): two lazy passes; control segments lose their style. -/
+def applyStyle (add : σ → σ → σ) (truthy : σ → Bool) (segs : List (Segment σ)) (style postStyle : Option σ) :
+    List (Segment σ) :=
+  let pass1 := match style with
+    | none => segs
+    | some st => segs.map fun s =>
+        { text := s.text, control := s.control,
+          style := if s.control then none else some (match s.style with | some x => add st x | none => st) }
+  match postStyle with
+  | none => pass1
+  | some ps => pass1.map fun s =>
+      { text := s.text, control := s.control,
+        style := if s.control then none else
+          some (match s.style with
+                | some x => if truthy x then add x ps else ps
+                | none => ps) }
+
+/-- `Segment.filter_control(segments, is_control)`. -/
+def filterControl (segs : List (Segment σ)) (isControl : Bool := false) : List (Segment σ) :=
+  segs.filter (fun s => s.control == isControl)
+
+/-- `Segment.strip_styles`. -/
+def stripStyles (segs : List (Segment σ)) : List (Segment σ) :=
+  segs.map fun s => { text := s.text, style := none, control := s.control }
+
+/-- `Segment.strip_links` (note: the rebuilt segment is never a control segment — it was not one). -/
+def stripLinks (truthy : σ → Bool) (noLink : σ → σ) (segs : List (Segment σ)) : List (Segment σ) :=
+  segs.map fun s =>
+    match s.style with
+    | none => s
+    | some st => if s.control then s
+                 else { text := s.text, style := if truthy st then some (noLink st) else none, control := false }
+
+/-- `Segment.remove_color`: a falsy (null) style becomes `None`; the `is_control` flag is kept. -/
+def removeColor (truthy : σ → Bool) (noColor : σ → σ) (segs : List (Segment σ)) : List (Segment σ) :=
+  segs.map fun s =>
+    { text := s.text, control := s.control,
+      style := match s.style with
+        | some st => if truthy st then some (noColor st) else none
+        | none => none }
+
+/-- `Segment.get_shape`: (max line length, number of lines). -/
+def getShape (cw : Char → Nat) (lines : List (List (Segment σ))) : Nat × Nat :=
+  ((lines.map (lineLength cw)).foldl max 0, lines.length)
+
 end RichModel
